@@ -17,6 +17,14 @@ func NewStorage(app *protocol.ApplicationContext, intervals int, expireGroup, mi
 	return &Storage{m: storage.VerifNewInMemory(app, intervals, expireGroup, minDistance, allowlist, denylist, clusters)}
 }
 
+// ConfigureStorage runs the real Configure of a fresh in-memory storage module on configRoot (viper).
+func ConfigureStorage(app *protocol.ApplicationContext, name, configRoot string) *Storage {
+	return &Storage{m: storage.VerifConfigureInMemory(app, name, configRoot)}
+}
+
+// Settings reports intervals, expire-group, min-distance, workers and queue-depth as Configure left them.
+func (s *Storage) Settings() (int, int64, int64, int, int) { return s.m.VerifSettings() }
+
 // Handle executes one request synchronously.
 func (s *Storage) Handle(r *protocol.StorageRequest) bool { return s.m.VerifHandle(r) }
 
